@@ -511,6 +511,21 @@ func (ai *absInterp) runBlock(fn *ssa.Function, b, from *ssa.BasicBlock, st *abs
 		case *ssa.DebugRef:
 		case ssa.Value:
 			if cl, ok := ins.(*ssa.Call); ok {
+				// copy(dst, src): min(len) elements of the source's backing are written into the destination's
+				if bi, isB := cl.Call.Value.(*ssa.Builtin); isB && bi.Name() == "copy" && len(cl.Call.Args) == 2 {
+					d, ok1 := ai.val(st, cl.Call.Args[0]).(ASlice)
+					sv, ok2 := ai.val(st, cl.Call.Args[1]).(ASlice)
+					if ok1 && ok2 && d.bk != nil && sv.bk != nil {
+						n := d.len
+						if sv.len < n {
+							n = sv.len
+						}
+						tmp := append([]AByte(nil), sv.bk.b[sv.off:sv.off+n]...)
+						copy(d.bk.b[d.off:d.off+n], tmp)
+						st.env[cl] = constAInt(uint64(n), 64, true)
+						continue
+					}
+				}
 				if cal := staticCallee(cl.Common()); cal != nil && cal.Blocks != nil && (strings.HasPrefix(pkgPathOf(cal), Mod) || pkgPathOf(cal) == "encoding/binary") {
 					var args []aval
 					for _, a := range cl.Call.Args {
